@@ -276,7 +276,20 @@ def replay(path):
         hits = [x for x in alias_failures() if x[0] == r['enum'] and x[3] == r['code']]
         print('aliases now: %s' % hits)
         ok = not hits
-    elif r.get('kind') == 'hello':
+    elif r.get('kind') == 'ssh-names':
+        from cryptoparser.ssh import subprotocol as sp
+        vcls = getattr(sp, r['class'])
+        body = ','.join(r['names']).encode('ascii')
+        wire = len(body).to_bytes(4, 'big') + body
+        try:
+            v = vcls.parse_exact_size(wire)
+            got = [x if isinstance(x, str) else x.value.code for x in v]
+            back = bytes(v.compose())
+        except Exception as e:  # pylint: disable=broad-except
+            got, back = type(e).__name__, None
+        print('%s\n decoded:    %s\n re-encoded: %r' % (','.join(r['names']), got, back))
+        ok = got == r['names'] and back == wire
+    elif r.get('kind') in ('hello', 'hello-single'):
         o = impl.impl_line(r['cmd'])
         spec = common.run_model([r['cmd']])[0] if common.build_runner().ok else r.get('spec')
         print('%s\n implementation: %s\n specification:  %s' % (r['cmd'][:120], o[:300], spec[:300]))
